@@ -121,7 +121,7 @@ def run(tier):
     run_ = evidence.Run(PID, tier, rule=RULE)
     cases = workload(tier)
     sil = silent_cases(tier)
-    for k in ("outcomes_observed", "library_exceptions_observed", "results_returned", "independent_parse_checks", "silent_comparisons"):
+    for k in ("outcomes_observed", "library_exceptions_observed", "results_returned", "independent_parse_checks", "silent_comparisons", "accessor_calls_after_an_error"):
         run_.need(k)
     with Pool() as pool:
         res = pool.map("vlib.errors:run_mut", cases, timeout=120)
@@ -161,6 +161,12 @@ def run(tier):
             run_.observe("library_exceptions_observed")
             kinds[case["kind"]]["lib"] += 1
             run_.counters["lib_" + o["exc_type"]] += 1
+            # the caller caught it and goes on asking the same runner
+            for a in r.get("after_error") or []:
+                run_.observe("accessor_calls_after_an_error")
+                if a["result"] == "raised" and not a["is_library_exception"]:
+                    run_.judge(b, "escaped_after_an_earlier_error:" + a["exc_type"], {"first_error": o["exc_type"], "accessor": a["accessor"], "then": a}, kf_id=None)
+                    break
         else:
             kinds[case["kind"]]["escape"] += 1
             site = f"{o['exc_type']} @ {(o.get('inner_sqllineage') or ['?', '?'])[1]} / {(o.get('raising') or ['?'])[0]}"
